@@ -69,6 +69,9 @@ public:
         if (!setup(3)) return false;
         v->is_email("\xD0\x96@b.com");
         A->obj_set_tld(v->p, 1);
+        // ... and finally m -> 6531 -> m again (the callback of mode m is already installed when m is confirmed the last time)
+        if (!setup(m) || !setup(3)) return false;
+        v->is_email("a@b.com");
         return setup(m);
     }
     bool init(const std::string &datadir) {
